@@ -63,6 +63,15 @@ func genC02(level int) []*CacheScen {
 				}
 			}
 		}
+		// an entry is stored and expires (the clock moves) while another call is in flight: the cleanup pass
+		// that starts afterwards must remove it whatever else is running (checked by the quiescent Count)
+		for _, x := range []CIn{cDelExp, con(cGet, 0), con(cDelete, 0), cRange, con(cGoS, 1)} {
+			for _, ini := range []int{IExpired, ILive} {
+				for _, rel := range []KeyRel{RelSS, RelDD} {
+					add(&CacheScen{Rel: rel, NKeys: 2, Init: []int{ini, IAbsent}, Table: TPlain, Threads: [][]CIn{{x}, {con(CIn{Op: CSet, D: 2}, 1), {Op: CAdvance, D: 3}, cDelExp}}})
+				}
+			}
+		}
 		// bucket mates: one expired, the other written
 		for _, a := range []CIn{cSet, cDelete, cGoS, cDelExp, cGaD} {
 			for _, b := range []CIn{cSet, cDelete, cGoS, cGet} {
